@@ -11,6 +11,7 @@ siblings, bottom-up, until nothing changes.
                 if c: return True else: return False -> return c;  x = A if c else B -> if c: x = A else: x = B (also return)
   loops         v = [] ; for ..: [if ..:] v.append(e) -> v = [e for .. if ..] (also set()/add);  for x in E: yield x -> yield from E
   loop names    a name used only as the target of several (not nested) loops is one variable per loop
+  aliases       v = t[0] (bound once, call-free path over names bound once) -> uses of v read t[0]
   locals        v = E ; <simple statement using v once, v dead afterwards> -> the statement with E in place of v
   expressions   range(0, n) -> range(n);  x[len(x) - 1] -> x[-1];  lambda a: f(a) -> f;  super(C, self) -> super();
                 [x for x in E] -> list(E)
@@ -364,9 +365,83 @@ def _split_loop_vars(fn):
     return fn
 
 
+def _pure_path(e):
+    if isinstance(e, (ast.Name, ast.Constant)):
+        return True
+    if isinstance(e, ast.Attribute):
+        return _pure_path(e.value)
+    if isinstance(e, ast.Subscript):
+        return _pure_path(e.value) and _pure_path(e.slice)
+    return False
+
+
+def _propagate_aliases(fn):
+    """`v = t[0]` (a local bound once to a call-free path over names that are themselves bound once) is another name for that
+    path: its uses are written out and the binding dropped."""
+    for _ in range(8):
+        stores = {}
+        for n in ast.walk(fn):
+            if isinstance(n, ast.Name) and not isinstance(n.ctx, ast.Load):
+                stores[n.id] = stores.get(n.id, 0) + 1
+            elif isinstance(n, ast.ExceptHandler) and n.name:
+                stores[n.name] = stores.get(n.name, 0) + 2
+        params = {a.arg for a in fn.args.posonlyargs + fn.args.args + fn.args.kwonlyargs}
+        cand = None
+        parents = {}
+        for p_ in ast.walk(fn):
+            for c_ in ast.iter_child_nodes(p_):
+                parents[c_] = p_
+        for n in ast.walk(fn):
+            if isinstance(n, ast.Assign) and len(n.targets) == 1 and isinstance(n.targets[0], ast.Name) and _pure_path(n.value) \
+                    and not isinstance(n.value, ast.Constant) and stores.get(n.targets[0].id) == 1 and n.targets[0].id not in params:
+                names = {x.id for x in ast.walk(n.value) if isinstance(x, ast.Name)}
+                if n.targets[0].id in names or isinstance(n.value, ast.Name) and n.value.id == "self":
+                    continue
+                ok = True
+                for nm in names:
+                    if nm == "self":
+                        continue
+                    if stores.get(nm, 0) > 1 or (nm in params and stores.get(nm, 0) > 0):
+                        ok = False
+                    elif stores.get(nm, 0) == 1:
+                        # a loop variable must be bound by a loop around the alias
+                        cur, inside = n, False
+                        binder = next((x for x in ast.walk(fn) if isinstance(x, (ast.For, ast.comprehension)) and any(
+                            isinstance(y, ast.Name) and y.id == nm for y in ast.walk(x.target))), None)
+                        if binder is not None:
+                            while cur in parents:
+                                cur = parents[cur]
+                                if cur is binder:
+                                    inside = True
+                            ok = ok and inside
+                if ok:
+                    cand = n
+                    break
+        if cand is None:
+            break
+        v, val = cand.targets[0].id, cand.value
+
+        class _Sub(ast.NodeTransformer):
+            def visit_Name(self, x):
+                return copy.deepcopy(val) if x.id == v and isinstance(x.ctx, ast.Load) else x
+
+            def visit_Assign(self, x):
+                if x is cand:
+                    return None
+                self.generic_visit(x)
+                return x
+        fn = _Sub().visit(fn)
+        for x in ast.walk(fn):
+            for fld in ("body", "orelse", "finalbody"):
+                if isinstance(getattr(x, fld, None), list) and not getattr(x, fld) and fld == "body":
+                    x.body = [ast.Pass()]
+        ast.fix_missing_locations(fn)
+    return fn
+
+
 def canonical(fn_node):
     """Canonical copy of a FunctionDef."""
-    fn = _split_loop_vars(copy.deepcopy(fn_node))
+    fn = _propagate_aliases(_split_loop_vars(copy.deepcopy(fn_node)))
     prev = None
     for _ in range(6):
         fn = _Expr().visit(fn)
